@@ -149,6 +149,9 @@ def handle_trace_string_global(parser, events):
     lookup_events = []
     for event in events:
         lookup_events.append(event)
+        if event.eventid != events[0].eventid:
+            # Unrelated record logged between the chunks.
+            continue
         if event.func_qualifier & DgbFuncQual.DBG_FUNC_START.value:
             debugid = event.values[0]
             str_id = event.values[1]
@@ -186,14 +189,14 @@ def handle_trace_string_proc_exit(parser, events):
 
 
 def handle_trace_string_threadname(parser, events):
-    name = b''.join([e.data for e in events]).replace(b'\x00', b'').decode()
+    name = b''.join([e.data for e in events if e.eventid == events[0].eventid]).replace(b'\x00', b'').decode()
     event = TraceStringThreadname(events, name)
     parser.tids_names[events[0].tid] = event.name
     return event
 
 
 def handle_trace_string_threadname_prev(parser, events):
-    name = b''.join([e.data for e in events]).replace(b'\x00', b'').decode()
+    name = b''.join([e.data for e in events if e.eventid == events[0].eventid]).replace(b'\x00', b'').decode()
     event = TraceStringThreadnamePrev(events, name)
     parser.tids_names[events[0].tid] = event.name
     return event
